@@ -90,6 +90,8 @@ func (e *Encoder) Bytes() ([]byte, error) {
 	if e.mode == modeInitial {
 		e.appendDefaultMetadata()
 	}
+	// Emit the pending run of drawing ops of a path that has not ended (yet).
+	e.flushDrawOps()
 	return []byte(e.buf), nil
 }
 
